@@ -90,6 +90,9 @@ def cell_data_of(card):
         K = key.lstrip("*")
         if K.startswith("IMP:"):
             ps = imp_key_particles(K)
+            if ps is None:
+                out["bad_imp_key"] = [key, card.text[:160]]     # e.g. 'imp:=0.5': no particle at all
+                ps = []
             out["imp"].append((ps, list(vals)))
         elif K == "VOL":
             out["vol"].append(list(vals))
@@ -351,7 +354,10 @@ def apply_op(pr, env, o):
     elif t == "W":
         del target(o[1]).volume
     elif t == "U":
-        target(o[1]).universe = _universe(pr, o[2])
+        if len(o) > 3 and o[3] == "claim":
+            _universe(pr, o[2]).claim(target(o[1]))
+        else:
+            target(o[1]).universe = _universe(pr, o[2])
     elif t == "L":
         target(o[1]).lattice = None if o[2] is None else Lattice(o[2])
     elif t == "G":
@@ -650,6 +656,13 @@ def gen_c09(rng):
             params.append(kw("lat") + "=" + str(lat[c]))
         if c in fill and place["fill"] == "cell":
             params.append(kw("fill") + "=" + str(fill[c]) + (" " + tr[c] if c in tr else ""))
+        # other cell parameters: some of their names contain a modifier prefix as a substring (nonu, unc: 'u')
+        if rng.random() < 0.45:
+            pool = ["nonu=1", "unc:%s=0" % particles[0], "unc:%s=1" % particles[-1], "tmp=2.5e-8", "pwt=1",
+                    "ext:%s=0" % particles[0], "fcl:%s=0" % particles[0], "elpt:%s=1" % particles[-1], "cosy=1"]
+            for extra in rng.sample(pool, rng.choice([1, 1, 2])):
+                if extra.split(":")[0].split("=")[0] not in [x.split(":")[0].split("=")[0] for x in params]:
+                    params.append(kw(extra))
         rng.shuffle(params)
         cells.append(" ".join(["%d 0 %s" % (c, geom)] + params))
     data = []
@@ -783,7 +796,8 @@ def gen_program(rng, meta, length=None):
                 ops.append(["V", n, rng.choice(VOL_CHOICES)])
         elif r < 0.84 and cells:                       # universe
             n = rng.choice(cells)
-            ops.append(["U", n, rng.choice(univs + [0, 33]) if univs else rng.choice([0, 33])])
+            ops.append(["U", n, rng.choice(univs + [0, 33]) if univs else rng.choice([0, 33]),
+                        rng.choice(["set", "set", "claim"])])
             if 33 not in univs and ops[-1][2] == 33:
                 univs.append(33)
         elif r < 0.90 and cells:                       # lattice
@@ -828,7 +842,7 @@ def targeted_programs(rng, meta):
     for n in {cells[0], cells[-1]}:
         edit += [["I", n, rng.choice(parts), rng.choice(["3", "0"])], ["V", n, rng.choice(VOL_CHOICES)]]
         if univs:
-            edit += [["U", n, rng.choice(univs)]]
+            edit += [["U", n, rng.choice(univs), rng.choice(["set", "claim"])]]
     out.append(("edit-ends", edit))
     out.append(("set-all", [["S", cells[-1], "4"], ["I", cells[0], parts[0], "3"], ["S", cells[0], "0.5"]]))
     # write_to_file in the middle of a history: what a write leaves behind must not show in the next one
@@ -881,6 +895,9 @@ def oracle(real, reread=True):
         vec = list(vec) + ["J"] * (n - len(vec))
         for q in (ps if k == "imp" else [None]):
             vectors[k].append((q, vec))
+    for c in cells:
+        if c.get("bad_imp_key"):
+            return {"kind": "imp-key-unreadable", "detail": c["bad_imp_key"]}
     for i, (c, a) in enumerate(zip(cells, api)):
         num_, imp, vol, u, lat, fl = a
         wanted = [("imp", q, v, v != 0.0, True) for q, v in imp]
@@ -1050,11 +1067,46 @@ def denote_signs(text):
     return out
 
 
+def comments_of_text(text):
+    """all comment texts (C lines and '$' comments) of the cell and data blocks, by the independent reader"""
+    sp = spec.split_file(text)
+    out = []
+    for bi, block in enumerate(sp["blocks"][:3]):
+        if bi == 1:
+            continue
+        for card in block:
+            out += [c.strip().lower() for c in card.comments if c.strip()]
+    return out
+
+
+def comment_oracle(case, real):
+    """switching the placement (nothing else) must not lose a comment of the cell block or of the data block"""
+    if "out" not in real or any(o[0] not in ("F", "Wr") for o in case["ops"]):
+        return None
+    try:
+        want = comments_of_text(case["text"])
+        got = comments_of_text(real["out"])
+    except Exception:
+        return None
+    lost = []
+    pool = list(got)
+    for c in want:
+        if c in pool:
+            pool.remove(c)
+        else:
+            lost.append(c)
+    if lost:
+        return {"kind": "comment-lost", "detail": lost[:5]}
+    return None
+
+
 def check_case(case, reread=True):
     real = run_real(case, probe_first=case.get("probe_first", True))
     r = oracle(real, reread=reread)
     if r is None and not case.get("ops"):
         r = read_oracle(case["text"])
+    if r is None:
+        r = comment_oracle(case, real)
     return r
 
 
@@ -1297,12 +1349,12 @@ def run(ctx):
                     bump(dist["flags_at_write"][k], "data" if real["flags"][k] else "cell")
             ctx.count_case((c["text"], json.dumps(c["ops"])), nontrivial=(w == "written"))
             d = compare(c, real, ans, tab)
-            if d:
-                corr_bad.append({"case": {"text": c["text"], "ops": c["ops"]}, "first": json.loads(json.dumps(d[0], default=str))})
             # ---- oracle
             rr = (not quick) or (c.get("bits") or 0) % 8 == 0 or c.get("src") == "corpus" or c.get("src", "").startswith("targeted")
             dist["reread_checked"] += bool(rr and "out" in real)
             f = oracle(real, reread=rr)
+            if f is None:
+                f = comment_oracle(c, real)
             if f is not None:
                 n_fail += 1
                 bump(dist["oracle_failures"], f["kind"])
@@ -1310,10 +1362,13 @@ def run(ctx):
                       "case": {"text": c["text"], "ops": c["ops"], "_diag": c["_diag"]}}
                 if ctx.attribute(fc) is not None:
                     ctx.fail(fc)
+                    d = None          # the real code's deviation on this case is the known finding's
                 elif len(ctx.violations) < 3:
                     small = shrink({"text": c["text"], "ops": c["ops"]}, f["kind"])
                     f2 = check_case(small) or f
                     ctx.fail({"kind": f2["kind"], "detail": json.loads(json.dumps(f2["detail"], default=str)), "case": small})
+            if d:
+                corr_bad.append({"case": {"text": c["text"], "ops": c["ops"]}, "first": json.loads(json.dumps(d[0], default=str))})
             # second pass: nothing read from the objects before write_to_file
             if (c.get("bits") or 0) % 4 == 1 or c.get("src") == "corpus":
                 dist["second_pass_without_probes"] += 1
